@@ -2,6 +2,11 @@ NOTES = ("All checks: ./check <ID> --tier quick|thorough, VERIF_SEED respected, 
          "fix: commits in /repo are listed in known_findings.json as fixed entries.")
 NOT_APPLICABLE = {}
 CHECKS = {
+ "C19": {
+  "technique": "Hypothesis-generated three-way differential testing: Example.run_inline vs Example.run_pytest vs a real `python -m pytest` session on identical generated projects",
+  "text": "Generated projects (1-2 files, all operations, noisy previous values, failing and raising tests, HasRepr values, several categories pending in one container) are run through the two public helpers and a real session with every category subset; changed files must be identical across the three and the reported categories must match the sections of a real report session with the same flags. Exploration.",
+  "note": "projects stay inside what run_inline documents (module-level test functions, no externals); update is compared only where the plugin shows a non-empty diff",
+ },
  "C18": {
   "technique": "Hypothesis property-based testing / robustness fuzzing of generated test modules built from adversarial fragments, with a crash-freedom and non-overlap oracle on both drivers",
   "text": "Modules assembled from 15 fragment kinds (failing and raising tests, nested snapshots replaced / shifted / only aligned, raising comparisons, unused and half-used sites, two operations on one site, changing nested structure) are run with every approved set; collecting, applying and writing must not raise, recorded replacements must be pairwise disjoint, results must parse; real sessions must end without INTERNALERROR or traceback and with exit status 0/1. Exploration.",
